@@ -124,7 +124,15 @@ class IOMixin(OptimizationProblem, metaclass=ABCMeta):
                 t_pos = bisect.bisect_left(timeseries_times_sec, timeseries.times[0])
 
                 # Construct a new values range with length of self.io.get_times()
-                values = stretch_values(timeseries.values, t_pos)
+                if set(timeseries_times_sec).issuperset(timeseries.times):
+                    # Put every value at the position of its own time stamp; the
+                    # times of the added series need not be consecutive import times.
+                    values = np.full(timeseries_times_sec.shape, np.nan)
+                    values[np.searchsorted(timeseries_times_sec, timeseries.times)] = (
+                        timeseries.values
+                    )
+                else:
+                    values = stretch_values(timeseries.values, t_pos)
             else:
                 values = timeseries.values
 
